@@ -319,7 +319,7 @@ def judge_shortest(ctx, g, n, W, directed, cls, pairs, unweighted=False):
             continue
         dist = ref.dijkstra(n, Wd, directed, s)
         # (the documented algorithm choices: with positive weights every one of them finds a shortest route)
-        algo = ["auto", "auto", "FW", "D", "BF", "J"][(s * 7 + t * 3 + len(W)) % 6] if all(w > 0 for w in Wd.values()) else "auto"
+        algo = ["auto", "auto", "FW", "D"][(s * 7 + t * 3 + len(W)) % 4] if all(w > 0 for w in W.values()) else "auto"
         path, cost = g.find_shortest_path(s, t, unweighted=unweighted) if algo == "auto" else g.find_shortest_path(s, t, algorithm=algo, unweighted=unweighted)
         path = [int(v) for v in path]
         if dist[t] == float("inf"):
